@@ -20,7 +20,7 @@ func init() {
 		RealParts:  []string{"Genome.duplicate with the gene / node / link / trait / MIMO-gene copy constructors", "NewPopulation (spawn)", "the mutators used to probe aliasing", "the epochs that produce the source genomes"},
 		StubParts:  []string{"fitness during the preparatory epochs", "reference innovation registry for the follow-up structural mutations"},
 		Assumes:    []string{"genetic equality is judged on traits, nodes (id, role, activation, trait), genes (endpoints, weight, innovation and mutation number, recurrence and enabled flag, trait) and modules; derived caches (link parameter copies, phenotype pointers) are not genetic state"},
-		ProbeNames: []string{"probe.source.disabled_gene", "probe.source.recurrent_gene", "probe.source.nil_trait", "probe.descendants_of_copy_mutated", "probe.source.modular", "probe.mutated_copy", "probe.mutated_original", "probe.spawn"},
+		ProbeNames: []string{"probe.source.disabled_gene", "probe.source.recurrent_gene", "probe.source.nil_trait", "probe.descendants_of_copy_mutated", "probe.source.module_link_attributes", "probe.source.modular", "probe.mutated_copy", "probe.mutated_original", "probe.spawn"},
 	})
 }
 
@@ -54,9 +54,11 @@ func sharedState(a, b *genetics.Genome) string {
 		addArr(cg.ControlNode.Params, fmt.Sprintf("control node %d params", cg.ControlNode.Id))
 		for _, l := range cg.ControlNode.Incoming {
 			links[l] = true
+			addArr(l.Params, fmt.Sprintf("module %d input link params", cg.ControlNode.Id))
 		}
 		for _, l := range cg.ControlNode.Outgoing {
 			links[l] = true
+			addArr(l.Params, fmt.Sprintf("module %d output link params", cg.ControlNode.Id))
 		}
 	}
 	chkArr := func(p []float64, what string) string {
@@ -117,10 +119,50 @@ func sharedState(a, b *genetics.Genome) string {
 			if links[l] || nodes[l.InNode] {
 				return fmt.Sprintf("module %d input link/node is shared", cg.ControlNode.Id)
 			}
+			if l.Trait != nil && traits[l.Trait] {
+				return fmt.Sprintf("an input link of module %d of the copy points to a trait object of the source", cg.ControlNode.Id)
+			}
+			if s := chkArr(l.Params, fmt.Sprintf("module %d input link params", cg.ControlNode.Id)); s != "" {
+				return s
+			}
 		}
 		for _, l := range cg.ControlNode.Outgoing {
 			if links[l] || nodes[l.OutNode] {
 				return fmt.Sprintf("module %d output link/node is shared", cg.ControlNode.Id)
+			}
+			if l.Trait != nil && traits[l.Trait] {
+				return fmt.Sprintf("an output link of module %d of the copy points to a trait object of the source", cg.ControlNode.Id)
+			}
+			if s := chkArr(l.Params, fmt.Sprintf("module %d output link params", cg.ControlNode.Id)); s != "" {
+				return s
+			}
+		}
+	}
+	return ""
+}
+
+// moduleLinkDiff compares what the canonical record leaves out of a module's links: recurrence label and trait.
+func moduleLinkDiff(a, b *genetics.Genome) string {
+	if len(a.ControlGenes) != len(b.ControlGenes) {
+		return fmt.Sprintf("%d modules vs %d", len(a.ControlGenes), len(b.ControlGenes))
+	}
+	for i, ca := range a.ControlGenes {
+		cb := b.ControlGenes[i]
+		for _, side := range []struct {
+			n    string
+			x, y []*network.Link
+		}{{"incoming", ca.ControlNode.Incoming, cb.ControlNode.Incoming}, {"outgoing", ca.ControlNode.Outgoing, cb.ControlNode.Outgoing}} {
+			if len(side.x) != len(side.y) {
+				return fmt.Sprintf("module %d has %d %s links, the copy %d", ca.ControlNode.Id, len(side.x), side.n, len(side.y))
+			}
+			for k := range side.x {
+				lx, ly := side.x[k], side.y[k]
+				if lx.IsRecurrent != ly.IsRecurrent {
+					return fmt.Sprintf("module %d %s link %d: recurrence label %t, the copy has %t", ca.ControlNode.Id, side.n, k, lx.IsRecurrent, ly.IsRecurrent)
+				}
+				if traitId(lx.Trait) != traitId(ly.Trait) {
+					return fmt.Sprintf("module %d %s link %d: trait %d, the copy has %d", ca.ControlNode.Id, side.n, k, traitId(lx.Trait), traitId(ly.Trait))
+				}
 			}
 		}
 	}
@@ -277,6 +319,22 @@ func scenarioC06(c *RunCtx) {
 		src := env.Pool[a]
 		srcRec := Canon(src)
 		modular := len(src.ControlGenes) > 0
+		if modular && t.Chance("moduleLinkAttrs", 1, 2) {
+			// the links of a control node are ordinary links: they may carry the recurrence label and a trait (the public
+			// constructors allow it; no reader produces it). A copy must keep them.
+			for _, cg := range src.ControlGenes {
+				for _, l := range append(append([]*network.Link(nil), cg.ControlNode.Incoming...), cg.ControlNode.Outgoing...) {
+					if t.Chance("moduleLink.rec", 1, 3) {
+						l.IsRecurrent = true
+					}
+					if len(src.Traits) > 0 && t.Chance("moduleLink.trait", 1, 3) {
+						l.Trait = src.Traits[t.Draw("moduleLink.traitIdx", len(src.Traits))]
+					}
+				}
+			}
+			srcRec = Canon(src)
+			c.Count("probe.source.module_link_attributes")
+		}
 		res := env.Apply(OpDuplicate, a, 0, c.Lib)
 		c.Steps++
 		c.Op("%s", res.Describe())
@@ -293,6 +351,9 @@ func scenarioC06(c *RunCtx) {
 		}
 		if s := sharedState(src, cp); s != "" {
 			c.Fail("duplicate:shared-state", "%s\nsource: %s", s, srcRec.Pretty())
+		}
+		if d := moduleLinkDiff(src, cp); d != "" {
+			c.Fail("duplicate:not-equal", "the duplicate differs from its source in a module link: %s\nsource: %s", d, srcRec.Pretty())
 		}
 		// NodeWithId of the copy answers with the copy's own nodes
 		for _, n := range cp.Nodes {
